@@ -5,9 +5,13 @@
 (*   GenerateServerCertificates gate (node record + nonce/state signature) *)
 (*   -> TLS with client-certificate verification against the currently     *)
 (*   valid roots, expected subject key, proof of possession -> outcome.    *)
-(* Server state: which node records exist, and what certificates each      *)
-(* identity holds (none / fresh = issued under the current root set /      *)
-(* stale = issued before the roots were replaced).                         *)
+(* Server state: which node records exist, what certificates each identity *)
+(* holds (none / pending / fresh = issued under the current root pair      *)
+(* (current, next) / old = issued under the pair before the last           *)
+(* promotion: its second chain is from the root that is current now /      *)
+(* stale = no chain from a root the server has), and the PHASE of the      *)
+(* server's root pair in time: early (current valid, next not yet),        *)
+(* overlap (both valid), late (current expired, next valid, not rotated).  *)
 (* Outcomes: "auth" (connection negotiated the node-authentication         *)
 (* protocol), "base" (fell through to the application's TLS config),       *)
 (* "temperr" (per-connection failure, listener keeps going).               *)
@@ -23,7 +27,15 @@ Signers == CertKeys \cup {NONE, "kx"}      \* kx: a key unknown to the server
 \* rotation); hasprev[k]: the node still holds its previous credentials
 InitState(cfg) == [rec |-> [k \in CertKeys |-> FALSE], cert |-> [k \in CertKeys |-> "none"],
                    prevrec |-> [k \in CertKeys |-> FALSE], hasprev |-> [k \in CertKeys |-> FALSE],
-                   prevfresh |-> [k \in CertKeys |-> FALSE], cfg |-> cfg]
+                   prevcert |-> [k \in CertKeys |-> "none"], phase |-> "early", cfg |-> cfg]
+
+Issued == {"fresh", "old", "stale"}                 \* the identity holds certificates
+ValidCur(st) == st.phase \in {"early", "overlap"}
+ValidNext(st) == st.phase \in {"overlap", "late"}
+\* a holder of certificates of kind x (fresh / old / stale) has some chain that is valid now and from a root the server has
+Connectable(st, x) == x = "fresh" \/ (x = "old" /\ ValidCur(st))
+Age(x) == IF x = "fresh" THEN "old" ELSE IF x = "old" THEN "stale" ELSE x      \* one promotion later
+Kill(x) == IF x \in {"fresh", "old"} THEN "stale" ELSE x                        \* both roots replaced
 \* cfg = [nidl |-> storage supports lookup by node id, base |-> a base TLS configuration exists]
 
 Out(res, st) == [res |-> res, st |-> st]
@@ -35,32 +47,35 @@ DoAuthorizePending(st, o) ==
 \* any peer that is not the node's own server: foreign roots, a certificate minted for another nonce, no nonce,
 \* wrong extended key usage, self-signed, with or without mimicking the library's ALPN
 RogueKinds == {"foreign", "staleNonce", "noNonce", "wrongEku", "selfSigned", "foreignNoAlpn", "foreignExtraAlpn", "nextRootNotYetValid"}
-DoRogue(st, o) == IF st.cert[o.k] \notin {"fresh", "stale"} THEN Out("skip", st) ELSE Out("error", st)
-\* the server rotates its roots once the node's second chain has become valid (real time): the node keeps one recognised chain
-DoRotateWait(st) == Out("ok", st)
+DoRogue(st, o) == IF st.cert[o.k] \notin Issued THEN Out("skip", st) ELSE Out("error", st)
+\* real time passes until the next root has become valid as well
+DoWaitOverlap(st) == IF st.phase = "early" THEN Out("ok", [st EXCEPT !.phase = "overlap"]) ELSE Out("skip", st)
+\* the server rotates its roots once the next root is valid (real time): next is promoted, a new next is minted (not
+\* yet valid); holders of the old pair keep their second chain, which is from the root that is current now
+DoRotateWait(st) == Out("ok", [st EXCEPT !.phase = "early", !.cert = [k \in CertKeys |-> Age(st.cert[k])],
+                                         !.prevcert = [k \in CertKeys |-> Age(st.prevcert[k])]])
 \* the operator is late: the current root expires (real time) while the next root is valid and no rotation has run;
-\* the server serves from the next root; nodes keep one recognised, valid chain.  (Only honest dials and
-\* enrolments are replayed after this step: the adversarial clients' chain "b0" names the expired root.)
-DoExpireWait(st) == Out("ok", st)
+\* the server serves from the next root only
+DoExpireWait(st) == IF st.phase = "late" THEN Out("skip", st) ELSE Out("ok", [st EXCEPT !.phase = "late"])
 
 \* node credential rotation end to end (rotation.RotateNodeCredentials authenticated by the current shared key):
 \* the new key gets a record, the old record stays until the application removes it
 DoRotateNode(st, o) ==
-  IF st.cert[o.k] \notin {"fresh", "stale"} THEN Out("skip", st)
+  IF st.cert[o.k] \notin Issued THEN Out("skip", st)
   ELSE IF ~st.rec[o.k] THEN Out("error", st)
-  ELSE Out("ok", [st EXCEPT !.prevrec[o.k] = TRUE, !.hasprev[o.k] = TRUE, !.prevfresh[o.k] = (st.cert[o.k] = "fresh"), !.cert[o.k] = "fresh"])
+  ELSE Out("ok", [st EXCEPT !.prevrec[o.k] = TRUE, !.hasprev[o.k] = TRUE, !.prevcert[o.k] = st.cert[o.k], !.cert[o.k] = "fresh"])
 DoRemovePrev(st, o) == IF st.prevrec[o.k] THEN Out("ok", [st EXCEPT !.prevrec[o.k] = FALSE]) ELSE Out("skip", st)
 \* dialing with the PREVIOUS credentials
 DoDialPrev(st, o) ==
   IF ~st.hasprev[o.k] THEN Out("skip", st)
-  ELSE IF st.prevrec[o.k] /\ st.prevfresh[o.k] THEN Out("auth", st) ELSE Out("temperr", st)
+  ELSE IF st.prevrec[o.k] /\ Connectable(st, st.prevcert[o.k]) THEN Out("auth", st) ELSE Out("temperr", st)
 
 DoEnroll(st, o) ==   \* operator-authorised enrolment of a brand-new identity
   IF st.cert[o.k] # "none" THEN Out("skip", st)
   ELSE Out("ok", [st EXCEPT !.rec[o.k] = TRUE, !.cert[o.k] = "fresh"])
 DoRemove(st, o) == IF st.rec[o.k] THEN Out("ok", [st EXCEPT !.rec[o.k] = FALSE]) ELSE Out("skip", st)
-DoReinit(st) == Out("ok", [st EXCEPT !.cert = [k \in CertKeys |-> IF st.cert[k] = "fresh" THEN "stale" ELSE st.cert[k]],
-                                     !.prevfresh = [k \in CertKeys |-> FALSE]])
+DoReinit(st) == Out("ok", [st EXCEPT !.cert = [k \in CertKeys |-> Kill(st.cert[k])],
+                                     !.prevcert = [k \in CertKeys |-> Kill(st.prevcert[k])], !.phase = "early"])
 
 (***************************************************************************)
 (* Adversarial client c = [kind, k, ck, chain, priv, nsig, stt, skip, nid, *)
@@ -68,7 +83,7 @@ DoReinit(st) == Out("ok", [st EXCEPT !.cert = [k \in CertKeys |-> IF st.cert[k] 
 (*  k    : key named in the ALPN-carried request                           *)
 (*  ck   : identity whose certificate chain is presented                   *)
 (*  chain: b0 (chain from the root that was current at issuance) | b1 (from *)
-(*         the next root, not yet valid) | foreign | self                  *)
+(*         the root that was next at issuance) | foreign | self            *)
 (*  priv : the client holds ck's private key                               *)
 (*  nsig : who signed the nonce;  stt: client state none | ok (signed by   *)
 (*         nsig) | forged (signed by kx) | unsigned                        *)
@@ -89,10 +104,16 @@ Lookup(st, c) ==
 StateOK(c, r) == c.stt = NONE \/ (c.stt = "ok" /\ c.nsig = r)
 GateOK(st, c) == \E r \in Lookup(st, c) : c.nsig = r /\ StateOK(c, r)
 
-ChainOK(st, c) == c.chain = "b0" /\ c.ck \in CertKeys /\ st.cert[c.ck] = "fresh"
+\* the presented chain is from a root the server has now AND that root is valid now
+ChainOK(st, c) ==
+  /\ c.ck \in CertKeys
+  /\ \/ (c.chain = "b0" /\ st.cert[c.ck] = "fresh" /\ ValidCur(st))
+     \/ (c.chain = "b1" /\ st.cert[c.ck] = "fresh" /\ ValidNext(st))
+     \/ (c.chain = "b1" /\ st.cert[c.ck] = "old" /\ ValidCur(st))
 \* the expected-key check compares the certificate's subject key with the key named in the request, when one is named
 TlsOK(st, c) == ChainOK(st, c) /\ c.priv /\ (c.k = NONE \/ c.ck = c.k)
-ServerCertOK(c) == c.pref \in {"cur", NONE}
+\* the server certificate the client asks for exists only for a root that is valid now
+ServerCertOK(st, c) == (c.pref = "cur" /\ ValidCur(st)) \/ (c.pref = "next" /\ ValidNext(st)) \/ c.pref = NONE
 
 \* kind "mixedFA": fetch-request chunks FOLLOWED by authentication chunks in one ClientHello: the first
 \* library protocol decides, so it is a fetch; "mixedAF": authentication chunks first: an authentication.
@@ -100,7 +121,7 @@ IsAuthKind(c) == c.kind \in {"auth", "mixedAF"}
 DoConnect(st, c) ==
   IF c.kind = "base" THEN Out(IF st.cfg.base THEN "base" ELSE "temperr", st)
   ELSE IF c.kind \in {"fetch", "mixedFA"} THEN Out("temperr", st)   \* a credential fetch never yields a connection
-  ELSE IF GateOK(st, c) /\ TlsOK(st, c) /\ ServerCertOK(c) THEN Out("auth", st)
+  ELSE IF GateOK(st, c) /\ TlsOK(st, c) /\ ServerCertOK(st, c) THEN Out("auth", st)
   ELSE Out("temperr", st)
 
 \* honest node dialing with protocol.Dial (extras / state only shape the metadata)
@@ -109,7 +130,7 @@ DoDial(st, o) ==
   ELSE IF st.cert[o.k] = "pending" THEN
        (IF st.rec[o.k] THEN Out("auth", [st EXCEPT !.cert[o.k] = "fresh"])     \* first dial after authorisation: fetch, then authenticate
         ELSE Out("notauth", st))                                                \* ErrNotAuthorized, nothing stored
-  ELSE IF st.rec[o.k] /\ st.cert[o.k] = "fresh" THEN Out("auth", st) ELSE Out("temperr", st)
+  ELSE IF st.rec[o.k] /\ Connectable(st, st.cert[o.k]) THEN Out("auth", st) ELSE Out("temperr", st)
 
 \* malformed / hostile input of class o.cls: always a per-connection failure
 DoMalformed(st, o) == Out("temperr", st)
@@ -124,6 +145,7 @@ Apply(st, o) ==
     [] o.op = "AuthorizePending" -> DoAuthorizePending(st, o)
     [] o.op = "Rogue" -> DoRogue(st, o)
     [] o.op = "RotateWait" -> DoRotateWait(st)
+    [] o.op = "WaitOverlap" -> DoWaitOverlap(st)
     [] o.op = "ExpireWait" -> DoExpireWait(st)
     [] o.op = "RotateNode" -> DoRotateNode(st, o)
     [] o.op = "RemovePrev" -> DoRemovePrev(st, o)
@@ -154,7 +176,7 @@ MalPrefixes == {"fetch", "auth", "pref"}
 AllowedC07(st, o, res, credsUnchanged) ==
   /\ (o.op = "Rogue" => res # "conn")
   /\ (o.op = "Dial" /\ st.cert[o.k] = "pending" /\ ~st.rec[o.k] => res = "notauth" /\ credsUnchanged)
-  /\ (o.op = "Dial" /\ st.rec[o.k] /\ st.cert[o.k] \in {"pending", "fresh"} => res = "auth")
+  /\ (o.op = "Dial" /\ st.rec[o.k] /\ (st.cert[o.k] = "pending" \/ Connectable(st, st.cert[o.k])) => res = "auth")
 
 (***************************************************************************)
 (* C02                                                                     *)
